@@ -1200,3 +1200,111 @@ def validate_raw_parser(run, files, n=60):
                 dx = [(q[1], r_, g_) for q, r_, g_ in zip(qs, real_x, a.get("xform") or []) if r_ != g_][:4]
                 run.tie_broken("translator", "generated _RawConfigParser.has_option / optionxform vs the real parser", "file %r: has_option differs on %s, optionxform on %s" % (text[:300], diff, dx))
     return len(plans)
+
+
+def validate_spline_modifier(run, n=80):
+    """the regenerated spline() modifier against the real function: argument lists of 0-2 definitions of 1-5 parts (the real namedtuples), spline keywords right and wrong,
+    modifiers in the middle, starts in and out of order, parameters the two spline factories accept and refuse; the form builder is a stand-in that names what it is
+    handed, `Spline_Point`, `Exp_Spline`, `Buck4_Spline` and `Custom_SplinePotential` of the modifiers' module are recorders (the second may raise ArithmeticError /
+    ImportError): which part became the start potential (with or without a next part), which the end potential (start made minus infinity), the detach and attach
+    separations, the spline type and r_min - or the class of the error"""
+    import atsim.potentials.config
+    from atsim.potentials import _modifiers as mods
+    from atsim.potentials.config._common import (PotentialFormInstanceTuple, PotentialModifierTuple, MultiRangeDefinitionTuple, ConfigurationException)
+    ok, log = build_gen()
+    if not ok:
+        run.tie_broken("translator", "Gen/Logic.lean (spline modifier)", "the regenerated definitions (or their driver) do not build: " + log[-600:])
+        return 0
+    rng = run.rng
+
+    def gen_chain(nparts, ctr):
+        parts = []
+        starts = sorted(rng.sample([x / 4.0 for x in range(0, 40)], nparts))
+        if rng.random() < 0.25 and nparts >= 2:
+            i_ = rng.randrange(nparts - 1)
+            starts[i_], starts[i_ + 1] = starts[i_ + 1], starts[i_] if rng.random() < 0.7 else starts[i_ + 1]
+        for i in range(nparts):
+            ctr[0] += 1
+            kind = "form"
+            name = "as.f%d" % ctr[0]
+            params = [float(ctr[0])]
+            if i == 1:
+                r = rng.random()
+                if r < 0.4:
+                    name, params = "exp_spline", ([] if rng.random() < 0.85 else [1.0])
+                elif r < 0.8:
+                    lo, hi = starts[1], starts[2] if nparts > 2 else starts[1] + 1.0
+                    rm = rng.choice([(lo + hi) / 2.0, lo, hi + 0.25, lo - 0.5])
+                    name, params = "buck4_spline", ([rm] if rng.random() < 0.85 else [rm, 1.0])
+                elif r < 0.9:
+                    kind = "modifier"
+                    name = "sum"
+                else:
+                    name = "cubic_spline"
+            parts.append((kind, name, params, (rng.choice([">", ">="]), starts[i])))
+        real, js = None, None
+        for kind, name, params, (rt, st) in reversed(parts):
+            rstart = MultiRangeDefinitionTuple(rt, st)
+            if kind == "modifier":
+                real = PotentialModifierTuple(name, [], rstart, real)
+            else:
+                real = PotentialFormInstanceTuple(name, params, rstart, real)
+            js = dict(mod=(kind == "modifier"), name=name, params=[common.fq(Fr(p)) for p in params], start=dict(rt=rt, start=common.fq(Fr(st))), next=js)
+        return real, js
+    cases, reqs = [], []
+    for _ in range(n):
+        ctr = [0]
+        nargs = rng.choice([1] * 12 + [0, 2])
+        args = [gen_chain(rng.choice([3] * 9 + [1, 2, 4, 5]), ctr) for _ in range(nargs)]
+        fault = rng.choice([None] * 8 + ["arithmetic", "import"])
+        cases.append(([a[0] for a in args], fault))
+        reqs.append(dict(op="spline_modifier", forms=[a[1] for a in args], fault=fault))
+    bad = 0
+    saved = (mods.Spline_Point, mods.Exp_Spline, mods.Buck4_Spline, mods.Custom_SplinePotential)
+    enc = lambda q: int(Fr(q) * 1000)
+    try:
+        for (forms, fault), a in zip(cases, query_gen(reqs)):
+            class Builder(object):
+                def create_potential_function(self, p):
+                    nid = int(p.parameters[0]) if getattr(p, "parameters", None) else 0
+                    return nid * 4 + (2 if p.next is not None else 0) + (1 if (p.start.start == float("-inf") and p.start.range_type == ">") else 0)
+
+            class Point(object):
+                def __init__(self, f, r):
+                    self.f, self.r = f, r
+
+            def exp(d, at):
+                if fault == "arithmetic":
+                    raise ZeroDivisionError("float division by zero")
+                if fault == "import":
+                    raise ImportError("No module named scipy")
+                return ((((1 * 1000 + d.f) * 100000 + enc(d.r)) * 1000 + at.f) * 100000 + enc(at.r))
+
+            def b4(d, at, rm):
+                if fault == "arithmetic":
+                    raise ValueError("math domain error")
+                if fault == "import":
+                    raise ImportError("No module named scipy")
+                return (((((2 * 1000 + d.f) * 100000 + enc(d.r)) * 1000 + at.f) * 100000 + enc(at.r)) * 100000 + enc(rm))
+            mods.Spline_Point, mods.Exp_Spline, mods.Buck4_Spline, mods.Custom_SplinePotential = Point, exp, b4, (lambda c: c)
+            try:
+                real = mods.spline(list(forms), Builder())
+            except ConfigurationException as e:
+                m = str(e)
+                real = ("notOneArgument" if "single multi range" in m else "onlyOne" if "only one specified" in m else "middleIsModifier" if "The modifier '" in m
+                        else "unknownSplineType" if "was found instead" in m else "onlyTwo" if "only two specified" in m else "moreThanThree" if "more than three" in m
+                        else "firstNotBelowSecond" if "less than start of 2nd" in m else "secondNotBelowThird" if "less than start of 3rd" in m
+                        else "cannotJoin" if "cannot join" in m else "needsPackage" if "additional package" in m else "config")
+            except Exception as e:
+                real = "internal: %s: %s" % (type(e).__name__, e)
+            run.traces += 1
+            run.dist["translator-validation/spline_modifier/%s" % (real if isinstance(real, str) else "ok")] += 1
+            if fault is not None and not isinstance(a, str):
+                a = {"arithmetic": "cannotJoin", "import": "needsPackage"}[fault]      # (the driver's factories do not raise these two; the generated clauses are shown by the tie)
+            if real != a:
+                bad += 1
+                if bad <= 2:
+                    run.tie_broken("translator", "generated spline() modifier vs the real function", "arguments %r (fault %s): real %s generated %s" % (forms, fault, real, a))
+    finally:
+        mods.Spline_Point, mods.Exp_Spline, mods.Buck4_Spline, mods.Custom_SplinePotential = saved
+    return len(cases)
